@@ -800,7 +800,10 @@ def run_text_setting(ctx, sec, key, skey, rname, value, typ, out):
         ctx.count("text_untyped_not_judged")
         return
     path = text_path()
-    path.write_text(f"# written by the C11 check\n[{sec}]\n{skey} = {value}\n")
+    # the section header is spelled like the keys: lower case / upper case / mixed
+    hdr = spell(sec, (len(str(skey)) + len(str(value))) % 3)
+    ctx.count(f"text_setting_header_spelling[{'lower' if hdr == sec else 'other'}]")
+    path.write_text(f"# written by the C11 check\n[{hdr}]\n{skey} = {value}\n")
     _State.route = "text_setting"
     c = attempt(lambda: dconfig.Configuration(files=[path]))
     ctx.ev("text_setting")
